@@ -32,7 +32,7 @@ CLAIMED = {
   technique="TLA+ spec (EntryOrder.tla refs machine) model-checked with TLC + replay + trace validation (EntryOrderTrace.tla)",
   design="5 C15"),
  "C08": dict(
-  text="ClusterPipeline.tla models every step of the pipeline (main dispatch with back-pressure counter, W workers taking from the spmc channel and sending buffers with tail offsets relative to the buffer, the single writer rebasing them and filling the address table by cluster id, channel closing and thread exits). TLC explores every schedule for W in 1..3, 4 clusters (5-6 in thorough) of every raw/compressed mix, MaxQueue 1 and 2W: QueueBound, WrittenOnce, NoOverlap, AddressPointsToOwnTail, AllAddressed, NothingLost, and termination under weak fairness. The real creator runs with 1, 2, 3 and 16 CPUs (1..16 in thorough; taskset: one worker on 1 and 2 CPUs through the two branches of the floor, 2 and 15 workers), 5..80 clusters, seeded delays in every Progress callback; ClusterPipelineTrace.tla checks the pipeline invariants on what was observed (callbacks + the cluster table found in the file by the independent decoder) and ContentPackTrace.tla that every address still resolves to its own bytes, counts are exact and the pack verifies. A further set of runs uses the hooked build (--cfg jubako_verif): hooks at the steps of the pipeline (dispatch with the counter under its mutex, take, done, decrement, write with the rebased tail offset, address assignment, close, exits; logged before a send and after a receive) are validated by PipelineHooksTrace.tla, every event having to be an enabled step of ClusterPipeline's state with the observed values (QueueBound exact, WrittenOnce, Rebase, NoOverlap, IndexAssign, NothingLost, exits in order), and the cluster table the independent decoder finds in the file must hold the tail offsets the writer recorded.",
+  text="ClusterPipeline.tla models every step of the pipeline (main dispatch with back-pressure counter, W workers taking from the spmc channel and sending buffers with tail offsets relative to the buffer, the single writer rebasing them and filling the address table by cluster id, channel closing and thread exits). TLC explores every schedule for W in 1..3, 4 clusters (5-6 in thorough) of every raw/compressed mix, MaxQueue 1 and 2W: QueueBound, WrittenOnce, NoOverlap, AddressPointsToOwnTail, AllAddressed, NothingLost, and termination under weak fairness. The real creator runs with 1, 2, 3 and 16 CPUs (1..16 in thorough; taskset: one worker on 1 and 2 CPUs through the two branches of the floor, 2 and 15 workers), 5..80 clusters, seeded delays in every Progress callback; ClusterPipelineTrace.tla checks the pipeline invariants on what was observed (callbacks + the cluster table found in the file by the independent decoder) and ContentPackTrace.tla that every address still resolves to its own bytes, counts are exact and the pack verifies. A further set of runs uses the hooked build (--cfg jubako_verif): hooks at the steps of the pipeline (dispatch with the counter under its mutex, take, done, decrement, write with the rebased tail offset, address assignment, close, exits; logged before a send and after a receive) are validated by PipelineHooksTrace.tla, every event having to be an enabled step of ClusterPipeline's state with the observed values (QueueBound exact, WrittenOnce, Rebase, NoOverlap, IndexAssign, NothingLost, exits in order), and the cluster table the independent decoder finds in the file must hold the tail offsets the writer recorded. An observation stage beyond the property (never a verdict): PipelineFaults.tla adds the failure path of the writer thread (model-checked under the code's policy and a repaired one) and PipelineFaultsTrace.tla validates the hook log of real runs in which one write is made to fail (DESIGN.md 11.7).",
   note="Real-code schedules are sampled (seeded perturbation through the Progress callbacks), the protocol is exhaustive in the model. Callback timing (Handle after NewCluster, file order = Written order) is policy level and reported as drift only.",
   technique="TLA+ spec (ClusterPipeline.tla, safety + liveness over all schedules) model-checked with TLC + trace validation of perturbed real runs (ClusterPipelineTrace.tla, ContentPackTrace.tla) and of guarded hooks at the pipeline's steps (PipelineHooksTrace.tla)",
   design="5 C08"),
